@@ -298,7 +298,9 @@ func workerMain(args []string) {
 			// a data race is a violation whatever the results were
 			viol = &Violation{Class: "race", Kind: raceSig(raceText), Detail: "data race reported by the Go race detector"}
 		}
-		if viol != nil {
+		if viol != nil && sum.Violations >= 60 {
+			sum.Violations++ // counted, not emitted: the coordinator has enough to work with
+		} else if viol != nil {
 			c := *cur
 			c.Tape = tape.Snapshot()
 			c.Violation = *viol
